@@ -477,7 +477,11 @@ def _finish(rf: RefFile, sub: RefSub, tfs):
   a = b"".join(_cut(t) for t in tfs)
   # reading B: trailing filler removed per block, blocks concatenated, text ends at the first unused-space code
   b = _cut(b"".join(t.rstrip(b"\x8f") for t in tfs))
-  sub.tf_variants = [a] if a == b else [a, b]
+  # Tech 3264: the unused space of the text field OF EACH BLOCK is filled with 8Fh, so a block contributes its bytes up to its
+  # first 8Fh whatever follows in that block (reading B was accepted at first; seeded change s-C09-1 showed that it lets the
+  # text of all following extension blocks disappear)
+  del b
+  sub.tf_variants = [a]
   sub.inner_filler = any(t.rstrip(b"\x8f").find(b"\x8f") >= 0 for t in tfs)
   sub.raw_tfs = list(tfs)
   for v in sub.tf_variants:
